@@ -43,6 +43,7 @@ Definition regen_spec (f : regen_facts) : Prop :=
   (forall (B : Type) (sem : list cls_items -> B), sem (rf_src f) = sem (rf_nml f)) /\
   (* classes <-> complex types of the bundled schema for the current version *)
   rf_binding_classes f = rf_complex_types f /\
+  rf_exported_classes f = rf_complex_types f /\
   rf_header_schema f = schema_of (rf_current f) /\
   rf_writer_schema f = schema_of (rf_current f) /\
   rf_regen_schema f = schema_of (rf_current f) /\
@@ -64,8 +65,8 @@ Qed.
 (* a one-sided edit is always seen: the obligation is also complete *)
 Theorem regen_complete f : regen_spec f -> regen_ok f = true.
 Proof.
-  unfold regen_ok, regen_spec. intros (_ & _ & _ & D & S & C & H1 & H2 & H3 & U & E).
-  specialize (S _ (fun x => x)). simpl in S. rewrite S, D, C, H1, H2, H3, U, E.
+  unfold regen_ok, regen_spec. intros (_ & _ & _ & D & S & C & X & H1 & H2 & H3 & U & E).
+  specialize (S _ (fun x => x)). simpl in S. rewrite S, D, C, X, H1, H2, H3, U, E.
   rewrite !String.eqb_refl, strs_eqb_refl.
   assert (T : forall t, tab_eqb t t = true).
   { induction t as [|[c x] t IH]; simpl; auto. rewrite String.eqb_refl, IH.
@@ -80,7 +81,7 @@ Qed.
 Example regen_example_ok :
   regen_ok {| rf_src := [("Segment", [("length", ["def length(self)"; "return 1"])])];
               rf_nml := [("Segment", [("length", ["def length(self)"; "return 1"])])];
-              rf_dangling := []; rf_binding_classes := ["Segment"]; rf_complex_types := ["Segment"];
+              rf_dangling := []; rf_binding_classes := ["Segment"]; rf_exported_classes := ["Segment"]; rf_complex_types := ["Segment"];
               rf_current := "v9"; rf_header_schema := "NeuroML_v9.xsd"; rf_writer_schema := "NeuroML_v9.xsd";
               rf_regen_schema := "NeuroML_v9.xsd"; rf_regen_uses_helpers := true; rf_schema_exists := true |} = true.
 Proof. vm_compute. reflexivity. Qed.
@@ -88,7 +89,7 @@ Proof. vm_compute. reflexivity. Qed.
 Example regen_example_bad :
   regen_ok {| rf_src := [("Segment", [("length", ["def length(self)"; "return 1"])])];
               rf_nml := [("Segment", [("length", ["def length(self)"; "return 2"])])];
-              rf_dangling := []; rf_binding_classes := ["Segment"]; rf_complex_types := ["Segment"];
+              rf_dangling := []; rf_binding_classes := ["Segment"]; rf_exported_classes := ["Segment"]; rf_complex_types := ["Segment"];
               rf_current := "v9"; rf_header_schema := "NeuroML_v9.xsd"; rf_writer_schema := "NeuroML_v9.xsd";
               rf_regen_schema := "NeuroML_v9.xsd"; rf_regen_uses_helpers := true; rf_schema_exists := true |} = false.
 Proof. vm_compute. reflexivity. Qed.
